@@ -445,6 +445,7 @@ Theorem rep_moves_ok s d st :
 Proof.
   intros HR HS Hst Hmax. destruct st; cbn [stmt_moves_ok]; try exact I.
   cbn [RefineMain.stmt_ok] in Hst. cbn [run_stmt] in Hmax.
+  destruct (first_err _ rows) as [u|e0|]; try exact I.
   refine (proj1 (rows_walk table cols rows s d [] 0%nat HR HS (vals_ok_rows _ Hst) _)).
   destruct (insert_rows s table cols rows [] 0) as [[s1 b] o]. exact Hmax.
 Qed.
@@ -593,15 +594,15 @@ Proof.
   - (* CREATE TABLE *)
     cbn [run_stmt] in *.
     destruct (is_sys n) eqn:Hsys.
-    { exfalso. destruct (rel_offset_sys s d n HR Hsys) as [o Eo]. unfold st_create_table, st_create_table0 in Hout.
+    { exfalso. destruct (rel_offset_sys s d n HR Hsys) as [o Eo]. unfold st_create_table, create_bad_rows, st_create_table0 in Hout.
       rewrite Eo in Hout. destruct (names_distinct _); cbn in Hout; discriminate. }
     destruct (st_create_table s n (map fielddef_of cds)) as [s1 [[]|e|]] eqn:Ec; cbn [e_store e_out] in *; try discriminate.
-    apply SelfOk_flush. unfold st_create_table in Ec.
-    destruct (names_distinct (map fd_name (map fielddef_of cds))) eqn:Hd; [|inversion Ec].
+    apply SelfOk_flush. apply st_create_table_ok_inv in Ec as (Hd & _ & Ec).
     apply (st_create_table0_self s d n (map fielddef_of cds) s1 HR HS Hsys); auto.
     apply names_distinct_NoDup. exact Hd.
   - (* INSERT *)
     cbn [RefineMain.stmt_ok] in Hst. cbn [run_stmt] in *.
+    destruct (first_err _ rows) as [u|e0|]; try discriminate.
     pose proof (rows_walk n cols rows s d [] 0%nat HR HS (vals_ok_rows _ Hst)) as X.
     destruct (insert_rows s n cols rows [] 0) as [[s1 b] o]. cbn [e_store e_out fst snd] in *.
     destruct (X Hmax) as [_ Y]. exact (Y c Hout).
@@ -609,6 +610,7 @@ Proof.
     cbn [run_stmt] in *.
     destruct (existsb _ sets); [cbn in Hout; discriminate|].
     destruct (where_ids s n w) as [ids|e|]; cbn [e_out e_store] in *; try discriminate.
+    destruct (first_err _ ids) as [u|e0|]; cbn [e_out e_store] in *; try discriminate.
     match goal with |- context [update_rows s n ?cs ?vs ids []] =>
       pose proof (update_rows_uinv n cs vs ids s [] (UInv_rep n s d HR HS)) as X;
       destruct (update_rows s n cs vs ids []) as [[s1 b] o] end.
